@@ -157,7 +157,11 @@ def set_tagged(root: config.Buildable, *, tag: TagType, value: Any) -> None:
     if isinstance(node, config.Buildable):
       for key, tags in node.__argument_tags__.items():
         if any(issubclass(t, tag) for t in tags):
-          setattr(node, key, value)
+          if isinstance(key, int):
+            # Positional-only and *args arguments are addressed by index.
+            node[key] = value
+          else:
+            setattr(node, key, value)
 
 
 def list_tags(
